@@ -49,7 +49,11 @@ type Params struct {
 	// PackRefs: the environment may run stock `git pack-refs --all` in A (what git gc does), at
 	// most twice per path (once in wipe runs)
 	PackRefs bool `json:"pack_refs"`
-	HangSec  int  `json:"hang_s"`
+	// Names "odd": four remotes named as stock git allows: one name a prefix of another (up,
+	// upstream), one with a slash (team/upstream), one with dot and dash (my.remote-2); Remotes is
+	// ignored; fetch is left out of the alphabet (pull covers it)
+	Names   string `json:"names"`
+	HangSec int    `json:"hang_s"`
 }
 
 func (p Params) String() string { b, _ := json.Marshal(p); return string(b) }
@@ -93,6 +97,10 @@ func New(params string) (xstate.Model, error) {
 	m := &model{p: p, seenRemotes: -1}
 	for i := 1; i <= p.Remotes; i++ {
 		m.remotes = append(m.remotes, fmt.Sprintf("R%d", i))
+	}
+	if p.Names == "odd" {
+		m.remotes = []string{"up", "upstream", "team/upstream", "my.remote-2"}
+		m.p.Remotes = len(m.remotes)
 	}
 	return m, nil
 }
@@ -525,6 +533,10 @@ func (m *model) Actions() []string {
 			out = append(out, "edit")
 		}
 		for _, r := range m.remotes {
+			if m.p.Names == "odd" {
+				out = append(out, "push("+r+")", "pull("+r+")")
+				continue
+			}
 			out = append(out, "push("+r+")", "fetch("+r+")", "pull("+r+")")
 		}
 		if local {
@@ -541,6 +553,10 @@ func (m *model) Actions() []string {
 	if !m.removed {
 		out = append(out, "edit")
 		for _, r := range m.remotes {
+			if m.p.Names == "odd" {
+				out = append(out, "push("+r+")", "pull("+r+")")
+				continue
+			}
 			out = append(out, "push("+r+")", "fetch("+r+")", "pull("+r+")")
 		}
 		return append(out, rms...)
